@@ -37,6 +37,9 @@ def Enc.add (e : Enc) (v : Int) : Except AddErr Enc :=
 def Enc.fromValues (e : Enc) (vs : List Int) : Enc :=
   { e with values := vs, max := vs.foldl (fun m v => if m < v then v else m) 0 }
 
+/-- `IsEmpty()`: `len(e.values) == 0` -/
+def Enc.isEmpty (e : Enc) : Bool := e.values.length == 0
+
 /-- `width()` -/
 def Enc.width (e : Enc) : Nat := uint32MinWidth (toU32 e.max)
 
